@@ -1,48 +1,80 @@
 (* Properties_C13.v -- property C13: pool shutdown and iv_thread lifetime (drain, paired hooks, join, release).
-   Statements only; every proof is `exact <lemma of MT/WorkMT*.v>`.  Same reading guide as Properties_C12.v.
-
-   CHECKPOINT STATE: `_partial` = weaker than the property clause; drain / hooks paired / joined / thread holds
-   creator are so far only enforced by `step` on every implementation log, not yet stated as theorems. *)
+   Statements only; every proof is `exact <lemma of MT/WorkMT*.v>`.  Same reading guide as Properties_C12.v. *)
 From Coq Require Import List ZArith Bool.
-From Ivv Require Import MT.WorkMT MT.WorkMTSpec MT.WorkMTInvA MT.WorkMTInvW MT.WorkMTProofs.
+From Ivv Require Import MT.WorkMT MT.WorkMTSpec MT.WorkMTInvA MT.WorkMTInvW MT.WorkMTProofs MT.WorkMTMon MT.WorkMTInvI
+  MT.WorkMTInvT MT.WorkMTSim MT.WorkMTFinal.
 Import ListNotations.
 Local Open Scope Z_scope.
 
+(* Drain: whatever was submitted before (or after) the put, when the run ends every submission has been worked on
+   and completed exactly once (with C12_exactly_once); a run in which the pool was put cannot end in QUIESCENT
+   (see C13_refs_dropped), so it ends with the owner's iv_main returning. *)
+Theorem C13_drain :
+  forall o tr l s', run (init o) (tr ++ [l]) = Some s' -> l = LQuiescent \/ l = LDone ->
+    forall i, count (is_sub i) tr = count (is_cp i) tr /\ count (is_wk i) tr = count (is_sub i) tr /\
+              count (is_rt i) tr = count (is_sub i) tr.
+Proof. exact ended_complete. Qed.
+Print Assumptions C13_drain.
+
+(* Hooks paired, exit, join -- and everything else the C13 monitor of MT/WorkMTMon.v checks -- hold on every accepted
+   sequence: per created thread at most one start hook, the stop hook only after it, once, by the same thread; a
+   thread finishes only with its hooks paired; it is joined only after it finished, once, by its creator; the
+   creator's iv_main returns only when every created thread has finished and been joined and nothing is in flight;
+   at QUIESCENT / D every created thread has been joined; no QUIESCENT after a put; D only after MainEnd. *)
+Theorem C13_hooks_paired :
+  forall o tr, accepts o tr = true -> mon13_ok o tr = true.
+Proof. exact accepts_mon13. Qed.
+Print Assumptions C13_hooks_paired.
+
+(* Joined: the `dead` event of a thread that has left its start routine (posted from the TLS destructor, whichever
+   way the thread ended) stays pending or being handled until the creator has joined the thread; a pool thread
+   whose iv_thread record has left the running state has run __iv_work_thread_die and is outside the pool lock. *)
+Theorem C13_joined :
+  forall o tr s, run (init o) tr = Some s -> JJ s /\ WP s.
+Proof. exact dead_event_pending. Qed.
+Print Assumptions C13_joined.
+
+(* References dropped: once the pool has been put it is shut down or freed for ever after; in that state a run cannot
+   be quiescent (C12_quiescent_drained: ~ put_state), i.e. with all threads blocked the pool has been freed, its two
+   events unregistered and every thread joined, so that the owner's event count is 0 and iv_main returns; when
+   iv_main returns the owner has no registered event, the pool is gone and every created thread is joined. *)
+Theorem C13_refs_dropped :
+  forall o tr s, run (init o) tr = Some s -> In (LPut o) tr -> put_state s.
+Proof. exact put_then_freed_or_shut. Qed.
+Print Assumptions C13_refs_dropped.
+
+Theorem C13_main_returns_released :
+  forall o tr t s', run (init o) (tr ++ [LMainEnd t]) = Some s' ->
+    exists s, run (init o) tr = Some s /\ t = o /\ onum s = 0 /\ (forall p, pl s <> PLive p) /\
+              (forall n, In n (tids s) -> tp (th s n) = TJoined) /\ (forall i, items s i = IIdle).
+Proof. exact mainend_released. Qed.
+Print Assumptions C13_main_returns_released.
+
+(* The pool is freed only without threads and without uncompleted work (while the free is owed: started_threads = 0,
+   work_done = [], shutting_down), and once it is gone no pool thread is alive. *)
+Theorem C13_freed_when_drained :
+  forall o tr s, run (init o) tr = Some s ->
+    (In FFree (todo s) -> forall p, pl s = PLive p -> pstarted p = 0 /\ pdone p = [] /\ pshut p = true) /\
+    ((forall p, pl s <> PLive p) -> nlive s = 0%nat).
+Proof. exact freed_when_drained. Qed.
+Print Assumptions C13_freed_when_drained.
+
 (* No step touches the pool after it was freed: once the model state is PFreed it stays so, and no pool-lock,
-   submit, put, stop-hook or create label is accepted any more (a log of the implementation with such a segment
-   after the free is rejected by the acceptor). *)
+   submit, put, stop-hook or create label is accepted any more. *)
 Theorem C13_no_touch_after_free :
   forall o tr s, run (init o) tr = Some s -> pl s = PFreed ->
     (forall l, pool_label l = true -> step s l = None) /\
     (forall l s', step s l = Some s' -> pl s' = PFreed).
-Proof.
-  intros o tr s H P. split.
-  - intros l L. exact (freed_no_pool_label s l (i_lock s (Inv_run o tr s H)) P L).
-  - intros l s' X. exact (freed_stays s l s' P X).
-Qed.
+Proof. exact no_touch_after_free. Qed.
 Print Assumptions C13_no_touch_after_free.
 
-(* The pool is freed only without threads and without uncompleted work: while the free is owed (the owner holds
-   the lock in the shutdown test that succeeded) started_threads = 0, work_done = [] and shutting_down is set;
-   and once the pool is gone no pool thread is alive.
-   partial: "events unregistered, freed exactly once at quiescence after put" needs W5 and is not yet stated. *)
-Theorem C13_refs_dropped_partial :
-  forall o tr s, run (init o) tr = Some s ->
-    (In FFree (todo s) -> forall p, pl s = PLive p -> pstarted p = 0 /\ pdone p = [] /\ pshut p = true) /\
-    ((forall p, pl s <> PLive p) -> nlive s = 0%nat).
-Proof.
-  intros o tr s H. destruct (Inv_run o tr s H). split.
-  - exact i_wf.
-  - exact (proj2 i_w1b).
-Qed.
-Print Assumptions C13_refs_dropped_partial.
-
-(* The stop hook and the unregistration of a pool thread's kick event are owed only by that thread itself, holding
-   the pool lock, after it has left the pool (struct work_pool_thread freed, started_threads decremented). *)
-Theorem C13_stop_by_dying_thread :
-  forall o tr s, run (init o) tr = Some s -> WU s.
-Proof. intros o tr s H. exact (i_wu s (Inv_run o tr s H)). Qed.
-Print Assumptions C13_stop_by_dying_thread.
+(* A created thread holds its creator: while a thread made by iv_thread_create has not been joined the creator's
+   registered-event count is positive, so its iv_main cannot return (C13_main_returns_released: it returns only
+   with count 0 and everything joined). *)
+Theorem C13_thread_holds_creator :
+  forall o tr s n, run (init o) tr = Some s -> In n (tids s) -> tp (th s n) <> TJoined -> 0 < onum s.
+Proof. exact unjoined_holds_creator. Qed.
+Print Assumptions C13_thread_holds_creator.
 
 (* Non-vacuity: a real log with a helper thread that calls iv_init and ends by pthread_exit without iv_deinit, a
    pool thread idle across the put from an owner timer, stop hook, both threads joined, pool freed. *)
